@@ -30,7 +30,8 @@ import Ops.Metadata
    <hyp>    `hyp-ok`: every named hypothesis of the conditional theorems of DracoProps/C01Eb.lean holds on this
             case (`EbEnc.valueBlockHyps` for every value block: scheme kinds, block invariance under the change of
             mesh data, the decoder's parent attribute, sizes, int32 range, canonical normals, corner counts,
-            crease counts; `EbEnc.ctIsoSideOk`), and the conclusion of `eb_value_block_conditional` evaluates to
+            crease counts; `EbEnc.ctIsoSideOk`; `EbEnc.tvIsoCheck` / `mdIsoCheck`: the decoder's and the encoder's
+            mesh data of the block are isomorphic under the corner map of `processed`), and the conclusion of `eb_value_block_conditional` evaluates to
             true (the decoder function on the decoder's mesh data returns the portable values and consumes exactly
             the block); otherwise `hyp-fails:<names>`. -/
 namespace Draco.Ops
@@ -196,7 +197,12 @@ def hypsOf (ch : EbChoices) (o : EbOpts) (g : Geometry) (enc : Encoded) (mesh : 
                 { rest := b.bytes ++ [85], version := 514 } with
         | (some (vals, _), st) => vals == b.portable && st.rest == [85]
         | _ => false
-      (hy ++ (if concl then [] else ["conclusion"])).map fun nme => s!"{b.attId}.{nme}"
+      -- TVIso / MDIso between the decoder's and the encoder's mesh data (corner map of `processed`)
+      let φ := phiOf enc.conn.processed
+      let (psi, back, cback) := buildMaps mdD.t b.md.t φ
+      let iso := (if tvIsoCheck mdD.t b.md.t φ psi back cback then [] else ["tvIso"]) ++
+                 (if mdIsoCheck mdD b.md φ psi then [] else ["mdIso"])
+      (hy ++ iso ++ (if concl then [] else ["conclusion"])).map fun nme => s!"{b.attId}.{nme}"
     let side := if ctIsoSideOk enc.conn.ct mesh.numFaces mesh.c2v then [] else ["ctIsoSide"]
     let all := fails ++ side
     if all.isEmpty then "hyp-ok" else "hyp-fails:" ++ ",".intercalate all
